@@ -132,6 +132,8 @@ def cid_rows(spec):
             rule = ", ".join(f["choices"])
         elif f["type"] == "Rec":
             rule = "|".join(f["choices"])
+        elif "accepted" in f:
+            rule = f.get("rule", "")
         tname = spec.get("rec_name", "Rec") if f["type"] == "Rec" else f["type"]
         rows.append(["F", f["name"], good_example(spec, f) if spec.get("examples") else "", "X" if f["empty"] else "", items_text(f["length"]), tname, rule])
     rows += late
@@ -151,6 +153,8 @@ def cid_rows(spec):
 
 def good_example(spec, f):
     """an example the field accepts whatever characters are allowed ('' = no example)"""
+    if "accepted" in f:
+        return ""
     pool = list(f["choices"]) if f["choices"] else ["a", "zz", "y{~", "A1b"]
     for c in pool:
         n = len(c)
@@ -223,7 +227,9 @@ def coq_range(items):
 def coq_cid(spec):
     fs = []
     for f in spec["fields"]:
-        h = "HText" if f["type"] == "Text" else "(HChoice %s)" % L(f["choices"], S)
+        # a built-in type other than Text / Choice: its hook is replayed from the implementation (C02 decides the hooks) as
+        # the list of those cells of its column that a fresh field of that type accepts
+        h = "HText" if f["type"] == "Text" else "(HChoice %s)" % L(f["accepted"] if "accepted" in f else f["choices"], S)
         fs.append("(mkfield %s %s %s %s)" % (S(f["name"]), B(f["empty"]), coq_range(f["length"]), h))
     cks = []
     for c in spec.get("checks", []):
@@ -474,6 +480,55 @@ def gen_cell(rnd, spec, f):
             c = rnd.choice(["\t", "\xa0", "\t ", " \t"]) * w      # white space, but no blanks: not an empty cell's padding
             c = c[:w]
     return c
+
+
+BUILTIN_POOLS = {
+    "Integer": [("", ["1", "12", "-3", "007", "+5", "1.5", "x", "99999999999", "2147483648", "1e3", "0x10", " 7", "1_0"]),
+                ("0...99", ["0", "99", "100", "-1", "042", "x", "+9", "9.0"])],
+    "Decimal": [("", ["1", "1.5", "-0.25", "1e3", "x", "123456789012345678901.5", "1e20", "-1e20", "9999999999999999999.999999999999",
+                      "99999999999999999999", "NaN", "Infinity", "1e-40"]),
+                ("0...299.99", ["0", "299.99", "300", "1e2", "1e3", "x", "-0.01", "299.990"])],
+    "DateTime": [("DD.MM.YYYY", ["01.02.2003", "31.02.2003", "1.2.2003", "x", "29.02.2000", "29.02.1900", "01.02.03"]),
+                 ("hh:mm", ["23:59", "24:00", "7:5", "x", "00:00"])],
+    "RegEx": [("a+b?", ["a", "aab", "b", "ab", "abb", "x"])],
+    "Pattern": [("a*", ["a", "abc", "ba", "A", "x"])],
+}
+
+
+def builtin_variant(rnd, spec, table):
+    """turn one field of a delimited spec into a field of another built-in type and fill its column with cells from that
+    type's pool; the field's hook is replayed from the implementation: accepted = the cells of the column a fresh field of
+    that type accepts. Returns (spec, table) - new objects."""
+    import copy
+    from cutplace import data as _data, errors as _errors, fields as _fields
+    if spec["format"] != "delimited" or not spec["fields"]:
+        return spec, table
+    spec = copy.deepcopy(spec)
+    table = [list(r) for r in table]
+    k = rnd.randrange(len(spec["fields"]))
+    f = spec["fields"][k]
+    tname = rnd.choice(sorted(BUILTIN_POOLS))
+    rule, pool = rnd.choice(BUILTIN_POOLS[tname])
+    f.update(type=tname, rule=rule, choices=[], length=None)
+    n = len(spec["fields"])
+    for row in table:
+        if len(row) == n:
+            row[k] = rnd.choice(pool) if rnd.random() < 0.9 else ""
+    cells = sorted({row[k] for row in table if len(row) == n and row[k] != ""})
+    df = _data.DataFormat("delimited")
+    df.validate()
+    field = getattr(_fields, tname + "FieldFormat")("f", f["empty"], "", rule, df)
+    accepted = []
+    for c in cells:
+        try:
+            field.validated_value(c)
+            accepted.append(c)
+        except _errors.FieldValueError:
+            pass
+        except Exception:  # noqa - a hook that fails otherwise: the model expects a rejection, the run will show the leak
+            pass
+    f["accepted"] = accepted
+    return spec, table
 
 
 def gen_table(rnd, spec, nrows=None, ragged=True):
